@@ -648,6 +648,18 @@ class SymInt:
     def __rmod__(s, o):
         return s._b(o, SymInt._fmod, True)
 
+    def __divmod__(s, o):
+        ot = SymInt.lift(o)
+        if ot is None:
+            return NotImplemented
+        return (SymInt(SymInt._fdiv(s.t, ot)), SymInt(SymInt._fmod(s.t, ot)))
+
+    def __rdivmod__(s, o):
+        ot = SymInt.lift(o)
+        if ot is None:
+            return NotImplemented
+        return (SymInt(SymInt._fdiv(ot, s.t)), SymInt(SymInt._fmod(ot, s.t)))
+
     def __truediv__(s, o):
         ot = SymInt.lift(o)
         if ot is None:
